@@ -339,6 +339,11 @@ func (p *Proxy) handleCONNECT(r responder.Responder, proxyReq *http.Request) err
 				slog.Debug("Client closed connection in CONNECT tunnel", "host", proxyReq.Host)
 			} else {
 				slog.Error("Error reading request from client in CONNECT tunnel", "host", proxyReq.Host, "error", err)
+				// A request that cannot be parsed still gets an answer before the tunnel is closed,
+				// as net/http gives one on a plain connection.
+				badRequest := responder.NewRawHTTPResponder(tlsConn)
+				badRequest.SetHeader("Connection", "close")
+				badRequest.WriteError("400 Bad Request: malformed HTTP request", http.StatusBadRequest)
 			}
 			break
 		}
